@@ -7,6 +7,7 @@ import time
 from .. import codec, common, container, pyavro, scopes
 
 PROP = "C11"
+THOROUGH_SEEDS = 2        # seeds per thorough run (bin/check)
 
 
 def compositions(n):
